@@ -4,3 +4,5 @@ import AriesVerif.C15.Props
 import AriesVerif.C15.Drv
 import AriesVerif.C19.Props
 import AriesVerif.C19.Drv
+import AriesVerif.C09.Props
+import AriesVerif.C09.Drv
